@@ -192,7 +192,12 @@ class Conversation(object):
         """the local user issues nothing more once it has been told that the association is refused, aborted or
         released (primitives after that point are not legal user behaviour)"""
         for x in self.prov.to_service_user.log:
-            if getattr(x, 'pdu_type', None) in (3, 6, 7):
+            t = getattr(x, 'pdu_type', None)
+            if t in (3, 7):
+                return True
+            # A-RELEASE confirmation: the association is over - except on the acceptor side of a release collision
+            # (Sta12), where the user still owes its own A-RELEASE response
+            if t == 6 and self.prov.state_machine.current_state != ST.STA_12:
                 return True
         return False
 
@@ -209,8 +214,7 @@ class Conversation(object):
     def finished(self):
         """idle, and nothing more can happen: no bytes in flight, no peer turn whose gate is reached, no user
         primitive that is enabled"""
-        if self.segs:
-            return False
+        # (segments still in flight cannot arrive any more once the provider has given up its connection)
         if self.prov.state_machine.current_state != ST.STA_1 or self.prov.dul_socket is not None:
             return False
         for i, (kind, payload, gate) in enumerate(self.turns):
@@ -412,6 +416,14 @@ def corpus():
     c['acc_invalid_pdus_pipelined'] = (True, [
         ('peer', _rq().encode(), 0), ('user', _ac(), 1),
         ('peer', _ac().encode() + b'\x2a\x00\x00\x00\x00\x02\xab\xcd' + _rq().encode(), 1), ('close', None, 1)])
+    # a LONG PDU of unknown type (Evt19: AA-8 -> Sta13) with a SHORT PDU right behind it (the peer's own A-ABORT: AA-2): what
+    # the framing remembers about the long one must not survive it; the same as the very first PDU (Sta2: AA-1, then AA-2)
+    _unknown = b'\x2a\x00' + (40).to_bytes(4, 'big') + bytes(range(40))
+    c['acc_unknown_long_then_short'] = (True, [
+        ('peer', _rq().encode(), 0), ('user', _ac(), 1),
+        ('peer', _unknown + pdu.AAbortPDU(0, 0).encode(), 1), ('close', None, 2)])
+    c['acc_first_pdu_unknown_then_short'] = (True, [
+        ('peer', _unknown + pdu.AAbortPDU(0, 0).encode(), 0), ('close', None, 1)])
     st2 = _store_rsp()
     c['acc_sending_fragments_peer_closes'] = (True, [
         ('peer', _rq().encode(), 0), ('user', _ac(), 1),
@@ -436,6 +448,16 @@ def corpus():
         ('user', _rq(), 0), ('peer', _ac().encode(), 1), ('user', pdu.AReleaseRqPDU(), 1),
         ('peer', pdu.AReleaseRqPDU().encode(), 2), ('user', pdu.AReleaseRpPDU(), 2),
         ('peer', pdu.AReleaseRpPDU().encode(), 3), ('close', None, 3)])
+    # release collision, acceptor side: AR-8 -> Sta10, the peer's A-RELEASE-RP (AR-10) -> Sta12, the local user answers (AR-4)
+    # -> Sta13, the peer closes (AR-5)
+    c['acc_release_collision'] = (True, [
+        ('peer', _rq().encode(), 0), ('user', _ac(), 1), ('user', pdu.AReleaseRqPDU(), 1),
+        ('peer', pdu.AReleaseRqPDU().encode(), 2), ('peer', pdu.AReleaseRpPDU().encode(), 2),
+        ('user', pdu.AReleaseRpPDU(), 3), ('close', None, 3)])
+    # the requesting user aborts an established association (AA-1 -> Sta13), the peer closes
+    c['req_local_abort'] = (False, [
+        ('user', _rq(), 0), ('peer', _ac().encode(), 1), ('user', gen(_echo_rq()), 1),
+        ('peer', enc(_echo_rsp()), 2), ('user', pdu.AAbortPDU(0, 0), 2), ('close', None, 3)])
     c['req_release_confirm_and_close'] = (False, [
         ('user', _rq(), 0), ('peer', _ac().encode(), 1), ('user', pdu.AReleaseRqPDU(), 1),
         ('peer', pdu.AReleaseRpPDU().encode(), 2), ('close', None, 2)])
